@@ -36,4 +36,10 @@ InterruptClause(e) ==
          -> "NoHandedOutWorkIsLostAcrossCalls"
     [] Cardinality(SeqSetR(e.expanded)) # Len(e.expanded) -> "NoWorkExpandedTwice"
     [] OTHER -> "ok"
+\* whether a specification is finally found does not depend on where the search was interrupted: classes whose
+\* expansion is skipped are skipped only because they are already verified, so the interrupted-and-resumed search
+\* ends with a specification exactly when the uninterrupted one does
+SlicingClause(e) ==
+  IF e.full \in {"spec", "none"} /\ e.resumed \in {"spec", "none"} /\ e.full # e.resumed
+  THEN "ResumedSearchFindsASpecificationExactlyWhenTheUninterruptedOneDoes" ELSE "ok"
 =============================================================================
